@@ -377,7 +377,8 @@ func (a *ABI) ExecuteTransaction(req *labi.ExecuteTransactionRequest) (*labi.Exe
 		}
 		return &labi.ExecuteTransactionResponse{Events: []*blockchain.Event{txEvent(req.Transaction, height, e == TxExecOK)}, Result: res}, nil
 	case TxExecInvalid:
-		return &labi.ExecuteTransactionResponse{Events: []*blockchain.Event{}, Result: labi.TxExecuteResultInvalid}, nil
+		// as in the real state machine, hooks that ran before the failure may have emitted events
+		return &labi.ExecuteTransactionResponse{Events: []*blockchain.Event{txEvent(req.Transaction, height, false)}, Result: labi.TxExecuteResultInvalid}, nil
 	}
 	return nil, errors.New("scripted execute error")
 }
